@@ -394,6 +394,47 @@ def stream_items(func):
     return out
 
 
+def _is_loop_cond(ast):
+    p = ast.get("_p")
+    child = ast
+    while p is not None and p.get("kind") in ("ImplicitCastExpr", "ParenExpr", "ExprWithCleanups"):
+        child, p = p, p.get("_p")
+    if p is None or p.get("kind") not in ("ForStmt", "WhileStmt", "DoStmt"):
+        return False
+    ch = [c for c in inner(p) if isinstance(c, dict)]
+    return (p.get("kind") == "ForStmt" and len(ch) >= 3 and ch[2] is child) or (p.get("kind") == "WhileStmt" and ch[-2] is child) or \
+        (p.get("kind") == "DoStmt" and ch[1] is child)
+
+
+def _reader_default(fn, src, key):
+    """Name of the CellOrientation member the reader uses when `key` is absent: the constant assigned to the variable that the
+    key's branch assigns, outside that branch. Returns the member name, or a description when it is not a single constant."""
+    var = None
+    branch = None
+    for n in pyast.walk(fn):
+        if isinstance(n, pyast.If) and isinstance(n.test, pyast.Compare) and isinstance(n.test.comparators[0], pyast.Constant) \
+                and n.test.comparators[0].value == key:
+            for m in pyast.walk(n):
+                if isinstance(m, pyast.Assign) and "CellOrientation.__members__" in (pyast.get_source_segment(src, m) or ""):
+                    if isinstance(m.targets[0], pyast.Name):
+                        var = m.targets[0].id
+                        branch = n
+    if var is None:
+        return "<no variable receives the key>"
+    inside = {id(m) for m in pyast.walk(branch)}
+    vals = set()
+    for m in pyast.walk(fn):
+        if isinstance(m, pyast.Assign) and id(m) not in inside and any(isinstance(t, pyast.Name) and t.id == var for t in m.targets):
+            v = m.value
+            if isinstance(v, pyast.Attribute) and isinstance(v.value, pyast.Name) and v.value.id == "CellOrientation":
+                vals.add(v.attr)
+            else:
+                vals.add("<%s>" % (pyast.get_source_segment(src, v) or "expression")[:60])
+    if len(vals) == 1:
+        return vals.pop()
+    return "<%s>" % ", ".join(sorted(vals)) if vals else "<none>"
+
+
 def check_export(ctx, rep):
     prog = ctx.prog
     # ---- rows (.scl): keys the reader interprets
@@ -425,6 +466,33 @@ def check_export(ctx, rep):
                 rep.violation("N5", f.decl, f, "key '%s' is never written" % k, "the reader would silently use its default", key="exportIspdRows|key %s missing" % k)
             continue
         s, i = hit[0]
+        # conditional emission: the reader's default must be exactly the value under which the writer omits the key
+        cg = [(gc, val) for gc, val, ast, _as in (ctx.guards(f, items[i][2]) or []) if isinstance(val, bool) and not _is_loop_cond(ast)]
+        if cg:
+            omitted = None
+            if len(cg) == 1 and cg[0][0][0] == "bin" and cg[0][0][1] in ("!=", "=="):
+                gc, val = cg[0]
+                written_when_ne = (gc[1] == "!=") == val
+                sides = [gc[2], gc[3]]
+                en = [t for t in sides if t[0] == "enum"]
+                fld = [t for t in sides if any(u[0] == "field" and u[1].endswith("Row::orientation") for u in subterms(t))]
+                if written_when_ne and en and fld:
+                    omitted = str(en[0][-1]).split("::")[-1]
+            if k in required:
+                rep.violation("N5", items[i][2], f, "key '%s' is written only under %s" % (k, " and ".join(pretty(g) for g, _v in cg)),
+                              "the reader asserts it is present in every row", key="exportIspdRows|key %s conditional" % k)
+                continue
+            if k not in orient_keys or omitted is None:
+                rep.unknown("N5", items[i][2], f, "key '%s' is written only under %s" % (k, " and ".join(pretty(g) for g, _v in cg)),
+                            "conditional emission of a form this rule cannot pair with the reader's default")
+                continue
+            dflt = _reader_default(rr[0], src, k)
+            if dflt == omitted:
+                rep.holds("N5", items[i][2], f, "'%s' omitted exactly when the orientation is %s, the reader's constant default" % (k, omitted))
+            else:
+                rep.violation("N5", items[i][2], f, "'%s' is omitted when the row orientation is %s but the reader's default is %s" % (k, omitted, dflt),
+                              "rows written without the key are read back with another orientation", key="exportIspdRows|%s default mismatch" % k)
+                continue
         if k in orient_keys:
             # value written after the key must be toString(row orientation), unless the literal itself carries a constant
             tail = s.lower().split(k)[-1].replace(":", "").strip()
